@@ -457,6 +457,149 @@ Proof.
 Qed.
 End MergeData.
 
+(* ---- no-data elsewhere: where an input lacks a label, the merged array of that label is blank over that input's range ---- *)
+Section MergeBlank.
+Variables nv nc : nat.
+
+Definition BInv (done : list inp) (st : mstate) : Prop :=
+  forall l v, lookup l (md st) = Some v ->
+  forall k i, nth_error done k = Some i -> (forall d, In d (ds i) -> lbl0 d <> l) ->
+  all_none (slice v (doff done k (lcell l)) (isize i (lcell l))) = true.
+
+Lemma in_firstn {A} : forall n (l : list A) x, In x (firstn n l) -> In x l.
+Proof. induction n as [|n IH]; intros [|h r] x H; simpl in *; try contradiction. destruct H as [H|H]; [left; exact H | right; apply IH; exact H]. Qed.
+
+Lemma in_skipn {A} : forall n (l : list A) x, In x (skipn n l) -> In x l.
+Proof. induction n as [|n IH]; intros [|h r] x H; simpl in *; try contradiction; try assumption. right. apply IH. exact H. Qed.
+
+Lemma all_none_repeat : forall n s m, all_none (slice (repeat None n) s m) = true.
+Proof.
+  intros n s m. unfold all_none. apply forallb_forall. intros x Hx.
+  unfold slice in Hx. apply in_firstn in Hx. apply in_skipn in Hx.
+  apply repeat_spec in Hx. subst x. reflexivity.
+Qed.
+
+Lemma binv_step : forall done i st0 pr st ind d,
+  Forall wf_inp done -> GInv nv nc done st0 -> IInv nv nc done i st0 pr st ->
+  ~ In (lbl0 d) (map lbl0 pr) ->
+  length (dvals d) = isize i (dcell d) ->
+  cnt st0 (dcell d) + isize i (dcell d) <= shape nv nc (dcell d) ->
+  BInv done st -> BInv done (data_step nv nc st ind d).
+Proof.
+  intros done i st0 pr st ind d Hwfd HG HI Hfresh Hlen Hroom HB.
+  destruct HI as [Hv Hc Hwf Hrec Hcur].
+  assert (Hcnt : cnt st (dcell d) = cnt st0 (dcell d)) by (apply cnt_eq; assumption).
+  destruct (data_step_spec nv nc st ind d) as [v0 [Hv0 [Hnew [Hoth _]]]].
+  { intros v Hl. destruct (Hwf _ _ Hl) as [_ [Hlen' [_ Hb]]]. rewrite lcell_lbl0 in *.
+    split; [rewrite Hcnt; apply Hb; assumption | assumption]. }
+  { rewrite Hcnt, Hlen. assumption. }
+  rewrite Hcnt in Hnew.
+  assert (Hv0len : length v0 = shape nv nc (dcell d)).
+  { destruct Hv0 as [Hl | [_ ->]]; [destruct (Hwf _ _ Hl) as [_ [H _]]; exact H | apply repeat_length]. }
+  intros l v Hl k i' Hk Hno.
+  destruct (label_eqb l (lbl0 d)) eqn:E.
+  - apply label_eqb_eq in E; subst l. rewrite Hnew in Hl. inversion Hl; subst v. rewrite lcell_lbl0.
+    pose proof (doff_le done k i' (dcell d) Hk) as Hle.
+    assert (Hbefore : doff done k (dcell d) + isize i' (dcell d) <= cnt st0 (dcell d)).
+    { destruct HG as [Gv Gc _ _]. unfold cnt. destruct (dcell d); [rewrite Gc | rewrite Gv]; exact Hle. }
+    rewrite slice_splice_before by (try assumption; rewrite Hv0len, Hlen; assumption).
+    destruct Hv0 as [Hl0 | [_ ->]].
+    + specialize (HB _ _ Hl0 k i' Hk Hno). rewrite lcell_lbl0 in HB. exact HB.
+    + apply all_none_repeat.
+  - assert (Hne : l <> lbl0 d) by (intro; subst; rewrite label_eqb_refl in E; discriminate).
+    rewrite Hoth in Hl by assumption. eapply HB; eassumption.
+Qed.
+
+Lemma binv_steps : forall done i st0 rest pr st ind,
+  Forall wf_inp done -> GInv nv nc done st0 -> IInv nv nc done i st0 pr st ->
+  NoDup (map lbl0 (pr ++ rest)) ->
+  Forall (fun d => length (dvals d) = isize i (dcell d)) rest ->
+  (forall c, cnt st0 c + isize i c <= shape nv nc c) ->
+  BInv done st -> BInv done (data_steps nv nc st ind rest).
+Proof.
+  intros done i st0 rest. induction rest as [|d r IH]; intros pr st ind Hwfd HG HI Hnd Hlen Hroom HB.
+  - exact HB.
+  - simpl. inversion Hlen as [|? ? Hd Hr]; subst.
+    assert (Hfresh : ~ In (lbl0 d) (map lbl0 pr)).
+    { rewrite map_app in Hnd. simpl in Hnd. apply NoDup_remove_2 in Hnd.
+      intros Hin. apply Hnd. apply in_or_app. left. assumption. }
+    apply (IH (pr ++ [d])); try assumption.
+    + apply iinv_step; try assumption. apply Hroom.
+    + rewrite <- app_assoc. exact Hnd.
+    + eapply binv_step; try eassumption. apply Hroom.
+Qed.
+
+Lemma binv_input : forall done i st0,
+  Forall wf_inp done -> wf_inp i -> GInv nv nc done st0 ->
+  (forall c, cnt st0 c + isize i c <= shape nv nc c) ->
+  BInv done st0 -> BInv (done ++ [i]) (input_step nv nc st0 i).
+Proof.
+  intros done i st0 Hwfd [Hnd Hlen] HG Hroom HB.
+  assert (HI0 : IInv nv nc done i st0 [] st0).
+  { destruct HG as [Gv Gc Gwf Grec]. constructor; try reflexivity.
+    - intros l v Hl. destruct (Gwf l v Hl) as [H1 [H2 H3]]. repeat split; try assumption.
+      + eapply blank_from_mono; [exact H3|lia].
+      + intros _. exact H3.
+    - exact Grec.
+    - intros d []. }
+  pose proof (iinv_steps nv nc done i st0 (ds i) [] st0 0 Hwfd HG HI0 Hnd Hlen Hroom) as HI.
+  pose proof (binv_steps done i st0 (ds i) [] st0 0 Hwfd HG HI0 Hnd Hlen Hroom HB) as HB'.
+  simpl in HI. destruct HI as [Iv Ic Iwf Irec Icur]. destruct HG as [Gv Gc Gwf Grec].
+  unfold input_step. intros l v Hl k i' Hk Hno. cbn [md vcount ccount] in Hl.
+  destruct (Nat.lt_ge_cases k (length done)) as [Hlt|Hge].
+  - rewrite nth_error_app1 in Hk by assumption. rewrite doff_app by lia. eapply HB'; eassumption.
+  - assert (k = length done).
+    { assert (k < length (done ++ [i])) by (apply nth_error_Some; congruence). rewrite app_length in *. simpl in *. lia. }
+    subst k. rewrite nth_error_app2, Nat.sub_diag in Hk by lia. simpl in Hk. inversion Hk; subst i'.
+    rewrite doff_app by lia. rewrite doff_total.
+    destruct (Iwf l v Hl) as [_ [Hlenv [_ Hblank]]].
+    assert (Hnotin : ~ In l (map lbl0 (ds i))).
+    { intros Hin. apply in_map_iff in Hin as [d [Hd Hin]]. apply (Hno d Hin). exact Hd. }
+    specialize (Hblank Hnotin).
+    replace (total done (lcell l)) with (cnt st0 (lcell l)) by (unfold cnt; destruct (lcell l); assumption).
+    apply all_none_slice; [exact Hblank|]. rewrite Hlenv. apply Hroom.
+Qed.
+
+Lemma binv_fold : forall rest done st,
+  Forall wf_inp done -> Forall wf_inp rest -> GInv nv nc done st -> BInv done st ->
+  (forall c, total (done ++ rest) c <= shape nv nc c) ->
+  BInv (done ++ rest) (fold_left (input_step nv nc) rest st).
+Proof.
+  induction rest as [|i r IH]; intros done st Hwd Hwr HG HB Hroom.
+  - rewrite app_nil_r. exact HB.
+  - simpl. inversion Hwr as [|? ? Hi Hr]; subst.
+    replace (done ++ i :: r) with ((done ++ [i]) ++ r) in * by (rewrite <- app_assoc; reflexivity).
+    assert (Hroomi : forall c, cnt st c + isize i c <= shape nv nc c).
+    { intros c. specialize (Hroom c). destruct HG as [Gv Gc _ _].
+      assert (total ((done ++ [i]) ++ r) c >= total (done ++ [i]) c).
+      { destruct c; unfold total, merge_verts; rewrite !map_app, !concat_app, !app_length; lia. }
+      rewrite total_app in *. unfold cnt. destruct c; [rewrite Gc | rewrite Gv]; lia. }
+    apply IH; try assumption.
+    + apply Forall_app. split; [assumption | constructor; [assumption | constructor]].
+    + apply ginv_input; assumption.
+    + apply binv_input; assumption.
+Qed.
+End MergeBlank.
+
+Lemma merged_data_blank : forall ins,
+  Forall wf_inp ins ->
+  forall l v, lookup l (merge_data ins) = Some v ->
+  forall k i, nth_error ins k = Some i -> (forall d, In d (ds i) -> lbl0 d <> l) ->
+  all_none (slice v (doff ins k (lcell l)) (isize i (lcell l))) = true.
+Proof.
+  intros ins Hwf l v Hl k i Hk Hno. unfold merge_data in Hl.
+  set (nv := length (merge_verts ins)) in *. set (nc := length (concat (map cs ins))) in *.
+  assert (HG0 : GInv nv nc [] {| md := []; vcount := 0; ccount := 0 |}).
+  { constructor; try reflexivity.
+    - intros l' v' Hl'. discriminate.
+    - intros k' i' d' Hk'. destruct k'; discriminate. }
+  assert (HB0 : BInv [] {| md := []; vcount := 0; ccount := 0 |}).
+  { intros l' v' Hl'. discriminate. }
+  assert (Hroom : forall c, total ([] ++ ins) c <= shape nv nc c) by (intros [|]; unfold total, shape; subst nv nc; simpl; lia).
+  pose proof (binv_fold nv nc ins [] _ (Forall_nil _) Hwf HG0 HB0 Hroom) as HB. simpl in HB.
+  eapply HB; eassumption.
+Qed.
+
 (* every data set of every input is found in the merged object under its own name/type/association, with its
    values at the offset of its input; elsewhere the array holds the no-data value unless another input wrote there *)
 Lemma merged_data : forall ins,
